@@ -4,8 +4,8 @@ signatures of honest or adversarial sessions) are crafted with the independent P
 of BIP-327 in c12_util.py.  The verdict is the comparison implementation vs extracted Coq model."""
 from props.common import *
 from props.c12_util import *
-FINISH = dict(level='proof', technique='Coq theorems about the executable MuSig2 model (Properties_C12.v: hash-input layout incl. the full 64-bit counter, key aggregation / tweak accumulators / nonce aggregation / partial signing / aggregation equal a BIP-327 transcription, parser rejection sets, adapt/extract inverse) + differential correspondence of every public musig function with the model on honest and adversarial sessions',
-              trusted=TRUSTED_COMMON + ['completeness (honest sessions verify) is NOT proved (needs the group law); it is observed on every generated honest session on both sides',
+FINISH = dict(level='proof', technique='Coq theorems about the executable MuSig2 model (Properties_C12.v: hash-input layout incl. the full 64-bit counter; key aggregation, tweak accumulators for any tweak sequence, nonce generation / aggregation, session values, partial signing and aggregation equal the BIP-327 transcription Spec/Bip327.v; parser acceptance sets; adapt/extract inverse; honest partial signatures verify [MathFacts]) + differential correspondence of every public musig function with the model on honest and adversarial sessions',
+              trusted=TRUSTED_COMMON + ['honest_partial_sig_verifies and cbytes_injective_on_curve assume MathFacts (group law, p and n prime); validity of the AGGREGATE signature of an honest session under BIP-340 (honest_session_valid), partial_verify_eq_spec and the accumulator invariant are NOT proved: observed on every generated honest session on both sides',
                                         'the Python BIP-327 transcription tools/props/c12_util.py only crafts inputs; a defect there can only weaken the case classes (class counts and the expected-accept counters are in the evidence)'])
 
 def runners(chk):
@@ -136,14 +136,14 @@ def gen(chk):
     quick = chk.quick()
     # ---------------------------------------------------------------- honest sessions, signer counts 1..16
     shapes = ['random', 'first_repeated', 'all_equal', 'sorted', 'second_dup', 'neg_first']
-    reps = chk.scale(1, 6)
+    reps = chk.scale(2, 8)
     for rep in range(reps):
         for n in range(1, 17):
             shape = shapes[(n + rep) % len(shapes)]
             ntweak = (n + rep) % 7
             expect += honest_session(chk, r, n, shape, ntweak, flip=(n % 2 == 0), entry=['gen', 'counter', 'mixed'][(n + rep) % 3],
                                      adaptor=[None, 'plain'][(n // 2 + rep) % 2], cancel=None, nonce_first=(n % 3 == 0),
-                                     nverify=min(n, chk.scale(2, 16)), tag='honest_')
+                                     nverify=min(n, chk.scale(3, 16)), tag='honest_')
     # tweak sequences of every length 0..6 flipping parity at every step, 2 signers
     for nt in range(0, 7):
         for rep in range(chk.scale(1, 4)):
